@@ -174,11 +174,20 @@ func seqCase(r *vh.Rand, o *vh.Out) {
 	var wplan, rplan []planned
 	out := newStream(false, nil)
 	in := newStream(true, nil)
+	var unplanned int32 // stream calls the script did not foresee (e.g. on behalf of a call after Close)
 	out.plan = func(seq int, b []byte) behaviour {
+		if seq >= len(wplan) {
+			atomic.AddInt32(&unplanned, 1)
+			return behaviour{n: len(b)}
+		}
 		p := wplan[seq]
 		return behaviour{n: p.n, err: p.err, block: p.block}
 	}
 	in.plan = func(seq int, b []byte) behaviour {
+		if seq >= len(rplan) {
+			atomic.AddInt32(&unplanned, 1)
+			return behaviour{n: 0}
+		}
 		p := rplan[seq]
 		return behaviour{n: p.n, err: p.err, block: p.block, data: chunk(seq, p.n)}
 	}
@@ -288,6 +297,9 @@ func seqCase(r *vh.Rand, o *vh.Out) {
 	}
 	in.Close()
 	out.Close()
+	if atomic.LoadInt32(&unplanned) > 0 {
+		o.Oracle("stream-used-after-close", line(), "the underlying stream was called on behalf of a call made after Close")
+	}
 	o.Count(fmt.Sprintf("seq_len_%02d", len(ops)))
 	o.Case(line(), strings.Join(impl, " ")+" |R:"+logs(in.calls())+" |W:"+logs(out.calls()), len(ops) >= 2)
 }
@@ -969,6 +981,7 @@ func writeCounts(o *vh.Out, dir string) {
 func main() {
 	f := vh.ParseFlags()
 	o := vh.NewOut(f.Out)
+	o.Samples = []string{} // never JSON null, also when every child crashed
 	defer o.Close()
 	if *childMode != "" {
 		defer writeCounts(o, f.Out)
